@@ -11,7 +11,10 @@ import common
 
 PATTERNS = ["picture_%d.raw", "p%03d.raw", "%d", "x_%d.json", "frame-%i.raw", "out.%d.dat", "%s.raw", "pic%x.raw",
             # directories (created by the harness) with dots, relative paths, no extension on the last component
-            "run.2/pic_%d", "./pic_%d", "v1.0/out/%d", "a.b/c.d/%03d.raw", "../SIB.x/p_%d", "dir/.hidden_%d", "dir/%d.tar.gz"]
+            "run.2/pic_%d", "./pic_%d", "v1.0/out/%d", "a.b/c.d/%03d.raw", "../SIB.x/p_%d", "dir/.hidden_%d", "dir/%d.tar.gz",
+            # characters that are special to *other* template languages than printf
+            "{take3}_%d.raw", "clip{}_%d.raw", "a}b_%d.raw", "{0}%d", "$HOME_%d.raw", "pic [%d].raw", "a b %d.raw", "%%_%d.raw",
+            "~%d.raw", "*%d?.raw", "é%d.raw"]
 BAD_PATTERNS = ["picture.raw", "%d_%d.raw", "%(n)d.raw", "%z.raw", "100%.raw", "%"]
 
 
@@ -51,6 +54,8 @@ def one_case(job):
             kind = "first-npo-wrong"
             wrong = rng.choice([14, 15, len(data), 13 + rng.randrange(1, 40)])
             data = data[:5] + wrong.to_bytes(4, "big") + data[9:]
+        elif r0 < 0.22:
+            kind, data = common.degenerate_stream(rng)
         elif r0 < 0.6:
             kind, data = common.mutate(data, rng)
         res["kind"] = kind
@@ -75,9 +80,11 @@ def one_case(job):
         if not bad_pattern and not pattern.startswith((".", "/")) and rng.random() < 0.5:
             pattern = os.path.join(d, pattern)   # absolute variant
         res["pattern"] = pattern
-        argv = [path, "--no-status", "--output", pattern]
+        # the status line (on by default, written to stderr) is part of the command: run with and without it
+        argv = [path] + rng.choice([["--no-status"], ["--quiet"], [], []]) + ["--output", pattern]
         if rng.random() < 0.3:
             argv.append("-v")
+        res["argv"] = argv[1:]
         rc, out, err = run_main(argv)
         res["rc"] = rc
         if rc == "out-of-scope":
@@ -167,7 +174,7 @@ def run(ctx):
         if st == "harness-exception":
             ctx.obligation("harness:C25 case %d" % r["idx"], False, "harness", r.get("detail", ""))
         for key, detail in r["problems"]:
-            ctx.violation(key, {"seed": ctx.seed, "idx": r["idx"], "kind": r.get("kind"), "pattern": r.get("pattern"),
+            ctx.violation(key, {"seed": ctx.seed, "idx": r["idx"], "kind": r.get("kind"), "pattern": r.get("pattern"), "argv": r.get("argv"),
                                 "verdict": r.get("verdict")}, detail, observed=r.get("rc"))
     for r in results[:4]:
         ctx.sample({k: r.get(k) for k in ("idx", "kind", "pattern", "verdict", "rc", "n_pics", "status")})
